@@ -6,6 +6,7 @@ mod c02;
 mod c03;
 mod c04;
 mod c05;
+mod c06;
 mod c07;
 mod c08;
 mod c11;
@@ -23,6 +24,7 @@ fn main() {
         "C03" => Some(c03::check()),
         "C04" => Some(c04::check()),
         "C05" => Some(c05::check()),
+        "C06" => Some(c06::check()),
         "C07" => Some(c07::check()),
         "C08" => Some(c08::check()),
         "C11" => Some(c11::check()),
